@@ -9,6 +9,8 @@ unambiguous, which is what lets tokens stand for byte runs."""
 
 from __future__ import annotations
 
+import z3
+
 from typing import Any
 
 from pyvc import sym
@@ -155,6 +157,22 @@ def install(eng: Any) -> None:
     fm[vars(R)["read_offset"]] = r_offset
 
 
+STREAM_BYTE = z3.Function("STREAM_BYTE", z3.IntSort(), z3.IntSort())
+
+
+class StreamBytes:
+    """Content of an AnyStream: position -> STREAM_BYTE(position).  Only concretisation needs it."""
+
+    N = 64
+
+    def pyvc_leaves(self) -> list:
+        # what a sampler of counter-models may vary: the first bytes of the stream
+        return [sym.mk_int(STREAM_BYTE(z3.IntVal(k))) for k in range(6)]
+
+    def pyvc_concretize(self, ev: Any, live: bool) -> bytes:
+        return bytes(int(ev(sym.mk_int(STREAM_BYTE(z3.IntVal(k))))) & 0xFF for k in range(self.N))
+
+
 def install_any_stream(eng: Any) -> None:
     """Contract of a byte stream's read(1) (assumption A7): if bytes are left, one arbitrary byte 0..255 and the ghost
     counter `left` decreases by one; otherwise the empty bytes object."""
@@ -166,9 +184,11 @@ def install_any_stream(eng: Any) -> None:
             raise Unsupported("AnyStream.read(n) is only specified for n == 1")
         left = self_.fields["left"]
         if eng.truth(left > 0):
-            b = sym.fresh_int("byte")
+            pos = self_.fields["pos"]
+            b = sym.mk_int(STREAM_BYTE(sym.SInt.lift(pos)))  # the byte at this position: arbitrary but fixed
             eng.assume(And(b >= 0, b <= 255))
             eng.set_field(self_, "left", left - 1)
+            eng.set_field(self_, "pos", pos + 1)
             return SBytes([b])
         return b""
 
